@@ -297,6 +297,8 @@ class Interp:
 
     _SIGNATURES = None
     _FIELDS = None
+    _OPTION_CONTEXT = {}  # qualname -> {new optional parameter: ("const", expr, module) | ("sym",)}  (options.py)
+    _ENTRY_SEEN = set()  # entry points at which a new optional parameter was bound
 
     def _new_optional(self, fi, names):
         """the parameters among `names` that the pinned signature of fi does not have and that have a default"""
@@ -359,6 +361,10 @@ class Interp:
             known = Interp._FIELDS.get(f"{c.qualname}.<fields>")
             if known is None or attr in known or attr not in c.class_attrs:
                 return None
+            Interp._ENTRY_SEEN.add(f"{c.qualname}.<fields>")
+            src = Interp._OPTION_CONTEXT.get(f"{c.qualname}.<fields>", {}).get(attr)
+            if src is not None:
+                return self.eval(src[1], Env(None, src[2], None)) if src[0] == "const" else sym_num(f"{attr}@option")
             d = c.class_attrs[attr]
             if isinstance(d, ast.Call) and ast.unparse(d.func).split(".")[-1] == "field":
                 kw = {k.arg: k.value for k in d.keywords if k.arg}
@@ -389,7 +395,14 @@ class Interp:
             if skip_self and p in ("self", "cls") and fi.cls is not None and p == (fi.params[:1] or [None])[0]:
                 continue
             if known is not None and p not in known and p in defaults and getattr(self, "pin_defaults", True):
-                out[p] = self.eval(defaults[p], Env(None, fi.module, None))
+                Interp._ENTRY_SEEN.add(fi.qualname.split("#")[0])
+                src = Interp._OPTION_CONTEXT.get(fi.qualname.split("#")[0], {}).get(p)
+                if src is None:
+                    out[p] = self.eval(defaults[p], Env(None, fi.module, None))
+                elif src[0] == "const":  # the value an internal caller hands over (options.py)
+                    out[p] = self.eval(src[1], Env(None, src[2], None))
+                else:
+                    out[p] = sym_num(f"{p}@option")
             else:
                 out[p] = sym_num(p)
         return out
@@ -650,6 +663,9 @@ class Interp:
             items = it.items
         elif isinstance(it, DictV):
             items = [StrV(k) if isinstance(k, str) else const_num(k) for k in it.items]
+        elif isinstance(it, EnumV) and isinstance(it.inner, TupV) and not it.inner.rowview:
+            # enumerate(<literal sequence>): the literal pairs (k, item)
+            items = [TupV([const_num(k), x]) for k, x in enumerate(it.inner.items)]
         if items is not None and len(items) <= 12:
             for x in items:
                 self._assign(s.target, x, env, s)
@@ -694,6 +710,8 @@ class Interp:
         else:
             # elementwise view of an array-like iterable
             self._assign(s.target, self._element_of(it), env, s)
+        # `out = []` ... `for x in array: out.append(f(x))`: lists that are empty when the loop over an array starts
+        empties = {k: v for k, v in env.vars.items() if isinstance(v, TupV) and v.is_list and not v.items} if isinstance(it, (Num, Vec)) else {}
         self._loop_depth = getattr(self, "_loop_depth", 0) + 1
         try:
             self._exec_block(s.body, env)
@@ -701,6 +719,16 @@ class Interp:
             pass
         finally:
             self._loop_depth -= 1
+        for k, lst in empties.items():
+            if env.vars.get(k) is lst and len(lst.items) == 1 and isinstance(lst.items[0], Num) and not any(isinstance(n_, (ast.Break, ast.Continue, ast.If)) for st in s.body for n_ in ast.walk(st)):
+                # one unconditional append per element: the list is the comprehension [f(x) for x in array] - its
+                # elementwise view is the element term
+                v = lst.items[0]
+                self._listviews = getattr(self, "_listviews", set())
+                self._listviews.add(id(v))
+                self._keepalive = getattr(self, "_keepalive", [])
+                self._keepalive.append(v)
+                env.vars[k] = v
 
     def run_generator(self, gen, consume):
         if gen.consumed:
@@ -1201,7 +1229,12 @@ class Interp:
     @staticmethod
     def _maybe_none(v):
         """Can this abstract value be None at run time?  Only symbolic scalars can."""
-        return isinstance(v, Num) and Interp.single_atom(v.nf) is not None
+        if not isinstance(v, Num):
+            return False
+        a = Interp.single_atom(v.nf)
+        if a is not None and a[0] == "sym" and a[1].endswith("@option"):
+            return False  # a value an internal caller computes for a new option (options.py): not the None default
+        return a is not None
 
     def _e_IfExp(self, n, env):
         if self.decide(self.eval(n.test, env), n.test):
@@ -1276,6 +1309,8 @@ class Interp:
             items = it.items
         elif isinstance(it, DictV):
             items = [StrV(k) for k in it.items]
+        elif isinstance(it, EnumV) and isinstance(it.inner, TupV) and not it.inner.rowview:
+            items = [TupV([const_num(k), x]) for k, x in enumerate(it.inner.items)]
         sub = Env(env, env.module, env.func)
         if items is not None and len(items) <= 24:
             out = []
@@ -1289,6 +1324,9 @@ class Interp:
             iv = sym_num(self._counter_symbol(gen.target.elts[0].id, n))
             self._assign(gen.target.elts[0], iv, sub, n)
             self._assign(gen.target.elts[1], self._index(it.inner, iv, n), sub, n)
+        elif isinstance(it, ExtObj) and it.qual == "zip" and it.args and all(k.isdigit() for k in it.args) and all(isinstance(v, (Num, Vec)) for v in it.args.values()):
+            # zip(a, b, ...) of arrays: the generic element is the tuple of the arrays' generic elements
+            self._assign(gen.target, TupV([self._element_of(it.args[k]) for k in sorted(it.args, key=int)]), sub, n)
         else:
             self._assign(gen.target, self._element_of(it), sub, n)
         # a filter is a trace partition: on the partition where it fails the generic element is not in the list
@@ -2365,6 +2403,8 @@ def _h_range(it, args, kwargs, bound, node, qual):
 
 
 def _h_enumerate(it, args, kwargs, bound, node, qual):
+    if len(args) != 1 or kwargs:
+        return None  # enumerate(x, start): the counter does not start at 0 - not modelled
     return EnumV(args[0])
 
 
